@@ -474,10 +474,13 @@ where
     fn create_storage(config: &ZiporaHashMapConfig) -> Result<HashMapStorage<K, V>> {
         match &config.storage_strategy {
             StorageStrategy::Standard { initial_capacity, .. } => {
+                // Slots are addressed with `hash & mask`, mask = table length - 1: the table length
+                // must be a power of two, otherwise only 2^popcount(mask) slots are reachable
+                let capacity = initial_capacity.next_power_of_two();
                 Ok(HashMapStorage::Standard {
-                    buckets: FastVec::with_capacity(*initial_capacity)?,
-                    entries: FastVec::with_capacity(*initial_capacity)?,
-                    mask: initial_capacity.saturating_sub(1),
+                    buckets: FastVec::with_capacity(capacity)?,
+                    entries: FastVec::with_capacity(capacity)?,
+                    mask: capacity.saturating_sub(1),
                 })
             }
             StorageStrategy::SmallInline { inline_capacity, .. } => {
@@ -517,10 +520,11 @@ where
             StorageStrategy::PoolAllocated { .. } => {
                 // For now, fallback to standard storage
                 // TODO: Implement pool-based allocation
+                let capacity = config.initial_capacity.next_power_of_two();
                 Ok(HashMapStorage::Standard {
-                    buckets: FastVec::with_capacity(config.initial_capacity)?,
-                    entries: FastVec::with_capacity(config.initial_capacity)?,
-                    mask: config.initial_capacity.saturating_sub(1),
+                    buckets: FastVec::with_capacity(capacity)?,
+                    entries: FastVec::with_capacity(capacity)?,
+                    mask: capacity.saturating_sub(1),
                 })
             }
         }
